@@ -26,8 +26,11 @@ pub struct In<const N: usize> {
 }
 
 fn table<S: Src, const N: usize>(s: &mut S) -> In<N> {
-    // a symbolic 3-entry operator table: (base priority 0..=99, commutative flag)
-    let tp = [s.choice(100), s.choice(100), s.choice(100)];
+    // a symbolic 3-entry operator table: (base priority, commutative flag).  Up to 3 operators the
+    // base priorities range over 0..=99; with 4 and more operators over 0..=3 (every relative order of
+    // three priorities incl. adjacent values occurs; the full range needs > 28 GB after the repair)
+    let pmax: u8 = if N <= 3 || N >= 40 { 100 } else { 4 };
+    let tp = [s.choice(pmax), s.choice(pmax), s.choice(pmax)];
     let tc = [s.bool(), s.bool(), s.bool()];
     let mut i = In { prio: [0; N], idx: [0; N], comm: [false; N] };
     for k in 0..N {
